@@ -284,6 +284,11 @@ func handleAnswer(cfg runCfg, lean *leanProc, stream string, idx int, line, goAn
 	if flags != "" {
 		st.flags = append(st.flags, r)
 	}
+	if base == "unstable" {
+		// the implementation's own answers differ between runs: the expression observes the
+		// unspecified object-member order; not comparable (counted under the kind "unstable")
+		return
+	}
 	if !goOnly(line) && normPanic(base) != normPanic(leanAns) {
 		st.bad = append(st.bad, r)
 	} else if goOnly(line) && strings.HasPrefix(base, "panic") {
